@@ -126,6 +126,48 @@ let fixed3 = ref true
 let fixedlim = ref false
 let memchr_on = ref true
 
+(* the direct executable reading of the documented contracts (coq/Comb/Ref.v rexec: position, tokens, naive stack, look-ahead,
+   atomicity - no snapshots, no attempt bookkeeping, no call limit), printed as the same fields of the dump *)
+let ref_obs (kind : string) (r : rst) : string =
+  let b = Buffer.create 128 in
+  Buffer.add_string b (Printf.sprintf "%s pos=%d;q=" kind (int_of_nat r.r_pos));
+  List.iter (function
+    | QStart (e, p) -> Buffer.add_string b (Printf.sprintf "S:%d:%d," (int_of_nat e) (int_of_nat p))
+    | QEnd (st, ru, tag, p) -> Buffer.add_string b (Printf.sprintf "E:%d:%d:%s:%d," (int_of_nat st) (int_of_nat ru)
+        (match tag with None -> "-" | Some t -> string_of_int (int_of_nat t)) (int_of_nat p))) (List.rev r.r_queue);
+  Buffer.add_string b (Printf.sprintf ";la=%s;at=%s;st="
+    (match r.r_look with LPos -> "Positive" | LNeg -> "Negative" | LNone -> "None")
+    (match r.r_atom with Atomic -> "Atomic" | CompoundAtomic -> "CompoundAtomic" | NonAtomic -> "NonAtomic"));
+  List.iter (fun e -> Buffer.add_string b (hexs e); Buffer.add_char b ',') (List.rev r.r_stack);
+  Buffer.contents b
+
+(* the same fields of an observation of the real code ("Ok pos=..;q=..;la=..;at=..;pa=..;na=..;ap=..;st=..;cl=..." or Panic / Diverged) *)
+let impl_obs (impl : string) : string =
+  match String.index_opt impl ' ' with
+  | None -> impl
+  | Some i ->
+    let kind = String.sub impl 0 i in
+    let rest = String.sub impl (i + 1) (String.length impl - i - 1) in
+    let rest = (match String.index_opt rest '|' with Some j -> String.trim (String.sub rest 0 j) | None -> rest) in
+    let fields = String.split_on_char ';' rest in
+    let get k = (try List.find (fun f -> String.length f >= String.length k && String.sub f 0 (String.length k) = k) fields with Not_found -> k ^ "?") in
+    Printf.sprintf "%s %s;%s;%s;%s;%s" kind (get "pos=") (get "q=") (get "la=") (get "at=") (get "st=")
+
+(* None when the reference reading does not apply (call limit set, tag_node used) *)
+let ref_case (case : string) : string option =
+  let ki = find_key case " in=" and ke = find_key case " env=" and kp = find_key case " prog=" in
+  let head = String.sub case 0 ki in
+  if not (List.mem "lim=-" (String.split_on_char ' ' head)) then None else
+  let input = unhex (String.sub case (ki + 4) (ke - ki - 4)) in
+  let envs = String.sub case (ke + 5) (kp - ke - 5) in
+  let envl = if envs = "-" then [||] else Array.of_list (List.map prog_of_string (String.split_on_char ';' envs)) in
+  let env (f : nat) = let i = int_of_nat f in if i < Array.length envl then Some envl.(i) else None in
+  let prog = prog_of_string (String.sub case (kp + 6) (String.length case - kp - 6)) in
+  if not (notag prog && Array.for_all notag envl) then None else
+  let cfg = { memchr = !memchr_on; fixed3 = !fixed3; fixedlim = !fixedlim } in
+  Some (match rexec cfg env (nat_of_int 1200) prog (rinit input) with
+      | RROk r -> ref_obs "Ok" r | RRErr r -> ref_obs "Err" r | RRPanic _ -> "Panic" | RRFuel -> "Diverged")
+
 let eval_case (case : string) : string =
   let ki = find_key case " in=" and ke = find_key case " env=" and kp = find_key case " prog=" in
   let head = String.sub case 0 ki in
@@ -156,6 +198,11 @@ let () =
     | [case; impl] ->
       incr n;
       let m = (try eval_case case with Failure e -> "RUNNER-ERROR " ^ e | Stack_overflow -> "Diverged") in
-      if m <> impl then report "model" case impl m
+      (* the property's last clause, judged without the model of the code: the observable outcome equals the direct reading *)
+      let r = (try ref_case case with Failure _ -> None | Stack_overflow -> Some "Diverged") in
+      (match r with
+       | Some ro when ro <> impl_obs impl ->
+         report "spec" case (impl_obs impl) ("direct reading of the documented contracts (coq/Comb/Ref.v rexec) gives: " ^ ro)
+       | _ -> if m <> impl then report "model" case impl m)
     | _ -> ());
   Printf.printf "#RUNNER\tcases=%d\tmismatches=%d\n" !n !mismatches
